@@ -8,7 +8,7 @@ TITLE = "Configurations are either rejected with ValueError or fully honoured"
 RULES = {
     "C14.R1": "validation matrix: every non-raising path of each quantization entry point has passed the guard that rejects the unsupported configuration",
     "C14.R2": "configuration rejections raise ValueError (not assert, TypeError, ...)",
-    "C14.R3": "group-size post-condition: a non-None weight_group_size is only produced under in_features % group_size == 0, with in_features = weight.numel() // weight.shape[0]",
+    "C14.R3": "group-size post-condition: a non-None weight_group_size is only produced under in_features % group_size == 0, with in_features = weight.numel() // weight.shape[0]; the selection is repeated wherever weight_qtype is reassigned (the configuration in force is the one honoured)",
     "C14.R4": "qtypes given by name are looked up in `qtypes` for both weights and activations",
 }
 
@@ -159,6 +159,8 @@ def run(chk):
     from . import c02
     c02.requested_config(chk, "C14.R1")
     group_size_rule(chk)
+    from .c10 import derived_state
+    derived_state(chk, rule="C14.R3")  # the selected group size follows every reassignment of the weight qtype
     qtype_by_name(chk)
     chk.assume("parameter positions of the public quantization entry points are part of the API (names are read from the signatures)")
 
